@@ -153,7 +153,8 @@ func runC12(c *Ctx) {
 		n := 0
 		for _, w := range fieldWrites(c.P, "filterlist", "RuleStorageScanner", "currentScannerIdx") {
 			n++
-			if w.Fn.Name() != "Scan" {
+			scanFn := c.P.Method("filterlist", "RuleStorageScanner", "Scan")
+			if w.Fn.Name() != "Scan" && !(scanFn != nil && c.P.IsNewHelper(w.Fn) && inGroupOf(c.P, w.Fn, scanFn)) {
 				bad = shortFn(w.Fn) + " writes the scanner index"
 				continue
 			}
